@@ -5,7 +5,7 @@ cd "$(dirname "$0")"
 exec 9>.build.lock; flock 9
 python3 gen_dispatch.py
 { echo "-Q theories BFG"; echo "-Q props BFGProps"; find theories props -name '*.v' | sort; } > _CoqProject
-coq_makefile -f _CoqProject -o Makefile.coq >/dev/null
+coq_makefile -f _CoqProject -o Makefile.coq >/dev/null 2>&1
 timeout 3000 make -f Makefile.coq -j16 >build.log 2>&1 || { tail -40 build.log; exit 1; }
 mkdir -p extract/out ../bin
 cd extract/out
